@@ -99,3 +99,40 @@ def gen_linked_roots(rng: random.Random, max_roots: int = 4, jts=("INNER", "LEFT
     for g in groups:
         g.pop("key", None)
     return {"groups": groups, "request": [rng.choice(list(feats))], "links": links}
+
+
+def gen_typed_mix(rng: random.Random) -> Dict[str, Any]:
+    """Single-framework request in which ONE feature group must produce features with two different declared types plus
+    untyped ones (the grouping of untyped features into typed groups is exercised)."""
+    cfw = rng.choice(CFWS[:2])
+    cols = {c: [rng.randrange(0, 20) for _ in range(3)] for c in ["a", "b", "c", "d"][: rng.randrange(3, 5)]}
+    groups: List[Dict[str, Any]] = [{"name": "R0", "kind": "root", "cfw": cfw, "cols": cols}]
+    feats: Dict[str, Any] = {}
+    names = list(cols)
+    for i in range(rng.randrange(2, 5)):
+        ins = rng.sample(names, rng.randrange(1, 3))
+        feats[f"f{i + 1}"] = {"inputs": ins, "c0": rng.randrange(0, 3), "coefs": [1] * len(ins)}
+    groups.append({"name": "D1", "kind": "derived", "cfw": cfw, "features": feats})
+    types = ["INT64", "DOUBLE", "INT32", None, None]
+    req: List[Any] = []
+    pool = (list(cols) if rng.random() < 0.5 else []) + list(feats)
+    rng.shuffle(pool)
+    for n in pool[: rng.randrange(2, min(5, len(pool)) + 1)]:
+        t = rng.choice(types)
+        req.append({"name": n, "type": t} if t else n)
+    return {"groups": groups, "request": req}
+
+
+def framework_pattern_specs(n: int, star: bool, jt: str = "INNER") -> List[Dict[str, Any]]:
+    """Every assignment of the three frameworks to n linked sources (chain or star, links on k), consumer on the first
+    source's framework: a systematic sweep of framework patterns (cycles of framework pairs included)."""
+    import itertools
+    out = []
+    for cf in itertools.product(CFWS, repeat=n):
+        groups: List[Dict[str, Any]] = [{"name": f"R{i}", "kind": "root", "cfw": cf[i], "cols": {f"v{i}": [i + 1, i + 2], "k": [1, 2]}}
+                                        for i in range(n)]
+        links = [{"jt": jt, "l": f"R{0 if star else i - 1}", "r": f"R{i}", "li": ["k"], "ri": ["k"]} for i in range(1, n)]
+        groups.append({"name": "D1", "kind": "derived", "cfw": cf[0],
+                       "features": {"f1": {"inputs": [f"v{i}" for i in range(n)], "c0": 0, "coefs": [1] * n}}})
+        out.append({"groups": groups, "request": ["f1"], "links": links})
+    return out
